@@ -249,6 +249,9 @@ def run(ck, F):
     # would share one location among all its uses, and an unrelated request could rewrite what a unit prints)
     import borrow as _borrow
     _borrow.borrow(ck, F, 'C05', 'C17', {'make-is-fresh'})
+    # the location printer is a visitor that overrides the Stmt / Decl hooks only: it sees a node that carries a location because the
+    # default hook of the node's own class hands *that node* to the hook of its super-category
+    _borrow.borrow(ck, F, 'C06', 'C17', {'4-default-hook'})
     # what is printed for a word is the word (not the bytes that happen to follow it in the arena)
     import c18 as _c18
     _c18.c_string_insertions(ck, F, 'C17')
